@@ -2,7 +2,9 @@ pub mod c01;
 pub mod c02;
 pub mod c03;
 pub mod c04;
+pub mod c07;
 pub mod c10;
+pub mod c11;
 pub mod c12;
 pub mod c13;
 pub mod c14;
@@ -20,7 +22,11 @@ pub fn run(ctx: &Ctx) -> i32 {
         "C02" => c02::run(ctx),
         "C03" => c03::run(ctx),
         "C04" => c04::run(ctx),
+        "C05" => c07::run_c05(ctx),
+        "C07" => c07::run_c07(ctx),
+        "C09" => c07::run_c09(ctx),
         "C10" => c10::run(ctx),
+        "C11" => c11::run(ctx),
         "C12" => c12::run(ctx),
         "C13" => c13::run(ctx),
         "C14" => c14::run(ctx),
@@ -43,7 +49,11 @@ pub fn replay(ctx: &Ctx, file: &Path) -> i32 {
         "C03" => ctx.replay_file(file, &|c: &str, case: &serde_json::Value| c03::replay_any(c, case, &ctx.known)),
         "C04" => ctx.replay_file(file, &|c: &str, case: &serde_json::Value| c04::replay_any(c, case, &ctx.known)),
         "C18" => ctx.replay_file(file, &|c: &str, case: &serde_json::Value| c18::replay_any(c, case, &ctx.known)),
+        "C05" => ctx.replay_file(file, &|c: &str, case: &serde_json::Value| c07::replay_any(c, case, &ctx.known, c07::Mode::C05)),
+        "C07" => ctx.replay_file(file, &|c: &str, case: &serde_json::Value| c07::replay_any(c, case, &ctx.known, c07::Mode::C07)),
+        "C09" => ctx.replay_file(file, &|c: &str, case: &serde_json::Value| c07::replay_any(c, case, &ctx.known, c07::Mode::C09)),
         "C10" => ctx.replay_file(file, &|c: &str, case: &serde_json::Value| c10::replay_any(c, case, &ctx.known)),
+        "C11" => ctx.replay_file(file, &|c: &str, case: &serde_json::Value| c11::replay_any(c, case, &ctx.known)),
         "C12" => ctx.replay_file(file, &|c: &str, case: &serde_json::Value| c12::replay_any(c, case, &ctx.known)),
         "C13" => ctx.replay_file(file, &|c: &str, case: &serde_json::Value| c13::replay_any(c, case, &ctx.known)),
         "C14" => ctx.replay_file(file, &|c: &str, case: &serde_json::Value| c14::replay_any(c, case, &ctx.known)),
@@ -70,6 +80,7 @@ pub fn replay(ctx: &Ctx, file: &Path) -> i32 {
 pub fn aux(args: &[String]) -> i32 {
     match args.first().map(|s| s.as_str()) {
         Some("worker") => c12::worker_main(),
+        Some("oneshot") => c11::oneshot_main(),
         Some("depth") if args.len() >= 3 => c12::depth_child(&args[1], args[2].parse().unwrap_or(1)),
         _ => {
             eprintln!("unknown subcommand");
